@@ -29,7 +29,7 @@ var (
 		`........bxx.fr..................` + // 0x00
 		`xx"xoxhxxxooxoox0000000000xxhxho` + // 0x20
 		`ooooooooooooooooooooooooooox\xoo` + // 0x40
-		"oooooooooooooooooooooooooooxoxo." + // 0x60
+		"xooooooooooooooooooooooooooxxxo." + // 0x60
 		`88888888888888888888888888888888` + // 0x80
 		`88888888888888888888888888888888` + // 0xa0
 		`88888888888888888888888888888888` + // 0xc0
@@ -119,6 +119,9 @@ func AppendSENString(buf []byte, s string, htmlSafe bool) []byte {
 	b0 := len(buf)
 	m := senMap[s[0]]
 	quote := maxTokenLen < len(s) || (m != 'o' && m != '8' && !(!htmlSafe && m == 'h'))
+	if s[0] == '&' { // not a token start character for the parser
+		quote = true
+	}
 	buf = append(buf, '"')
 	start := 0
 	skip := 0
@@ -151,6 +154,8 @@ func AppendSENString(buf []byte, s string, htmlSafe bool) []byte {
 				buf = append(buf, hex[(b>>4)&0x0f])
 				buf = append(buf, hex[b&0x0f])
 				start = i + 1
+			} else if b == '&' { // the parser does not accept a bare '&'
+				quote = true
 			}
 		case '8':
 			r, cnt := utf8.DecodeRuneInString(s[i:])
